@@ -309,7 +309,40 @@ func (la *lockAnalysis) calleeSummary(cc *ssa.CallCommon) funcSummary {
 			return la.summaries[fn]
 		}
 	}
+	// a function value with a single resolution (unlock := db.lockAll(); defer unlock())
+	if fs := la.p.funcValues(cc.Value, 0, false); len(fs) == 1 {
+		return la.summaries[fs[0]]
+	}
 	return nil
+}
+
+// isReturnedClosure: fn is a closure whose only use is to be returned by the
+// function that makes it (the "returns its own unlock function" idiom).
+func isReturnedClosure(fn *ssa.Function) bool {
+	parent := fn.Parent()
+	if parent == nil {
+		return false
+	}
+	found := false
+	for _, b := range parent.Blocks {
+		for _, ins := range b.Instrs {
+			mc, ok := ins.(*ssa.MakeClosure)
+			if !ok || mc.Fn != ssa.Value(fn) {
+				continue
+			}
+			found = true
+			if refs := mc.Referrers(); refs != nil {
+				for _, ref := range *refs {
+					switch ref.(type) {
+					case *ssa.Return, *ssa.DebugRef:
+					default:
+						return false
+					}
+				}
+			}
+		}
+	}
+	return found
 }
 
 func (la *lockAnalysis) transfer(s lockState, ins ssa.Instruction) {
@@ -433,6 +466,10 @@ func (la *lockAnalysis) analyse(fn *ssa.Function) *lockFacts {
 		if consistent && val != 0 && len(f.returns) > 0 && !isExportedEntry(fn) && fn.Parent() == nil {
 			sum[k] = val
 		}
+		// the unlock closure a lock helper returns: a release wrapper
+		if consistent && val < 0 && len(f.returns) > 0 && fn.Parent() != nil && isReturnedClosure(fn) {
+			sum[k] = val
+		}
 	}
 	f.summary = sum
 	// conditional acquire wrapper: func(...) bool, every `return true` leaves the same
@@ -440,7 +477,10 @@ func (la *lockAnalysis) analyse(fn *ssa.Function) *lockFacts {
 	f.condSummary = funcSummary{}
 	res := fn.Signature.Results()
 	if !isExportedEntry(fn) && fn.Parent() == nil && res.Len() == 1 && len(f.returns) > 1 {
-		if bt, ok := res.At(0).Type().Underlying().(*types.Basic); ok && bt.Kind() == types.Bool {
+		bt, _ := res.At(0).Type().Underlying().(*types.Basic)
+		isBool := bt != nil && bt.Kind() == types.Bool
+		isErr := types.Identical(res.At(0).Type(), types.Universe.Lookup("error").Type())
+		if isBool || isErr {
 			for k := range keys {
 				if _, plain := sum[k]; plain {
 					continue
@@ -450,13 +490,31 @@ func (la *lockAnalysis) analyse(fn *ssa.Function) *lockFacts {
 					if isRecoverBlock(r.Block()) {
 						continue
 					}
-					c, isC := retValue(r, 0).(*ssa.Const)
+					rv := retValue(r, 0)
 					ns := f.before[r].nets(k)
-					if !isC || c.Value == nil || c.Value.Kind() != constant.Bool || len(ns) != 1 {
+					if len(ns) != 1 {
 						okAll = false
 						break
 					}
-					if constant.BoolVal(c.Value) {
+					acquired := false
+					if isBool {
+						c, isC := rv.(*ssa.Const)
+						if !isC || c.Value == nil || c.Value.Kind() != constant.Bool {
+							okAll = false
+							break
+						}
+						acquired = constant.BoolVal(c.Value)
+					} else {
+						// func(...) error: `return nil` holds the lock, a return of an error that
+						// cannot be nil does not
+						if isNilConst(rv) {
+							acquired = true
+						} else if !definitelyNonNilError(rv, r.Block()) {
+							okAll = false
+							break
+						}
+					}
+					if acquired {
 						if sawTrue && ns[0] != val {
 							okAll = false
 							break
@@ -476,6 +534,36 @@ func (la *lockAnalysis) analyse(fn *ssa.Function) *lockFacts {
 	return f
 }
 
+// definitelyNonNilError: v is an error value that cannot be nil: made by
+// fmt.Errorf/errors.New, a package-level sentinel, a concrete value boxed into the
+// interface, or tested non-nil on the way to b.
+func definitelyNonNilError(v ssa.Value, b *ssa.BasicBlock) bool {
+	switch x := v.(type) {
+	case *ssa.MakeInterface:
+		return true
+	case *ssa.Call:
+		if sc := x.Call.StaticCallee(); sc != nil {
+			switch sc.String() {
+			case "fmt.Errorf", "errors.New":
+				return true
+			}
+		}
+	case *ssa.UnOp:
+		if _, isG := x.X.(*ssa.Global); isG && x.Op == token.MUL {
+			return true
+		}
+	}
+	for _, f := range factsAt(b) {
+		cond, truth := normFact(f)
+		if bo, ok := cond.(*ssa.BinOp); ok && (bo.Op == token.NEQ) == truth && (bo.Op == token.NEQ || bo.Op == token.EQL) {
+			if (bo.X == v && isNilConst(bo.Y)) || (bo.Y == v && isNilConst(bo.X)) {
+				return true
+			}
+		}
+	}
+	return false
+}
+
 // edgeAdjust: block b ends in a branch on the result of a conditional acquire wrapper;
 // on the edge where the wrapper returned true the lock effect of the wrapper applies.
 func (la *lockAnalysis) edgeAdjust(b *ssa.BasicBlock, succIdx int) funcSummary {
@@ -487,6 +575,22 @@ func (la *lockAnalysis) edgeAdjust(b *ssa.BasicBlock, succIdx int) funcSummary {
 		return nil
 	}
 	c, truth := normFact(edgeFact{iff.Cond, succIdx == 0, b})
+	// err := wrapper(); if err != nil {...}: the lock is held where err == nil
+	if bo, isBin := c.(*ssa.BinOp); isBin && (bo.Op == token.EQL || bo.Op == token.NEQ) {
+		x, y := bo.X, bo.Y
+		if isNilConst(x) {
+			x, y = y, x
+		}
+		if isNilConst(y) {
+			if call, isCall := x.(*ssa.Call); isCall && types.Identical(call.Type(), types.Universe.Lookup("error").Type()) {
+				if (bo.Op == token.EQL) == truth {
+					c, truth = call, true
+				} else {
+					return nil
+				}
+			}
+		}
+	}
 	call, ok := c.(*ssa.Call)
 	if !ok || !truth {
 		return nil
@@ -597,6 +701,25 @@ func retPos(ret *ssa.Return, fn *ssa.Function) token.Pos {
 type callSite struct {
 	caller *ssa.Function
 	instr  ssa.Instruction // *ssa.Call | *ssa.Defer | *ssa.Go
+	// inner: when the closure is handed to a helper of the repository that only
+	// calls it (withLock(func(){...})), the calls of the parameter inside that helper
+	inner []callSite
+}
+
+// paramCallSites lists the calls of parameter idx inside callee.
+func paramCallSites(callee *ssa.Function, idx int) []callSite {
+	if callee == nil || idx >= len(callee.Params) {
+		return nil
+	}
+	var out []callSite
+	if refs := callee.Params[idx].Referrers(); refs != nil {
+		for _, ref := range *refs {
+			if c, ok := ref.(*ssa.Call); ok && c.Call.Value == callee.Params[idx] {
+				out = append(out, callSite{caller: callee, instr: c})
+			}
+		}
+	}
+	return out
 }
 
 type callIndex struct {
@@ -618,7 +741,7 @@ func getCallIndex(p *Program) *callIndex {
 				if ci2, ok := ins.(ssa.CallInstruction); ok {
 					cc = ci2.Common()
 					if callee := cc.StaticCallee(); callee != nil {
-						ci.sites[callee] = append(ci.sites[callee], callSite{fn, ins})
+						ci.sites[callee] = append(ci.sites[callee], callSite{caller: fn, instr: ins})
 					}
 				}
 				// operands that are functions used as values
@@ -861,6 +984,19 @@ func (la *lockAnalysis) heldAt(fn *ssa.Function, instr ssa.Instruction, guard *t
 			return false, "closure with no visible call site"
 		}
 		for _, s := range sites {
+			if len(s.inner) > 0 {
+				// withLock(func(){...}): decided where the helper calls its parameter
+				all := true
+				for _, in := range s.inner {
+					if ok, _ := la.heldAt(in.caller, in.instr, guard, write, visiting, depth+1); !ok {
+						all = false
+						break
+					}
+				}
+				if all {
+					continue
+				}
+			}
 			if ok, why := la.heldAt(s.caller, s.instr, guard, write, visiting, depth+1); !ok {
 				return false, why
 			}
@@ -1049,7 +1185,7 @@ func (la *lockAnalysis) valueSites(v ssa.Value, in *ssa.Function, seen map[ssa.V
 			return nil, "deferred closure: runs at function exit, lock state not tracked"
 		case *ssa.Call:
 			if u.Call.Value == v {
-				sites = append(sites, callSite{in, u})
+				sites = append(sites, callSite{caller: in, instr: u})
 				continue
 			}
 			// passed as an argument: synchronous callback?
@@ -1069,6 +1205,8 @@ func (la *lockAnalysis) valueSites(v ssa.Value, in *ssa.Function, seen map[ssa.V
 			if len(callees) == 0 {
 				return nil, "closure passed to an interface method with no implementation in the repository at " + la.p.Pos(u.Pos())
 			}
+			var inner []callSite
+			allRepo := true
 			for _, callee := range callees {
 				if la.p.inRepo(callee) {
 					pi := argIdx
@@ -1078,11 +1216,17 @@ func (la *lockAnalysis) valueSites(v ssa.Value, in *ssa.Function, seen map[ssa.V
 					if !paramOnlyCalled(callee, pi) {
 						return nil, "closure passed to " + funcName(callee) + ", which does more than call it"
 					}
+					inner = append(inner, paramCallSites(callee, pi)...)
 				} else if !syncCallbackExternal[callee.String()] {
 					return nil, "closure passed to external " + callee.String() + " (not known to be synchronous)"
+				} else {
+					allRepo = false
 				}
 			}
-			sites = append(sites, callSite{in, u})
+			if !allRepo {
+				inner = nil
+			}
+			sites = append(sites, callSite{caller: in, instr: u, inner: inner})
 		case *ssa.Store:
 			if u.Val != v {
 				continue
@@ -1182,7 +1326,7 @@ func (la *lockAnalysis) closureSites(fn *ssa.Function) ([]callSite, string) {
 				switch u := ins.(type) {
 				case *ssa.Call:
 					if u.Call.Value == ssa.Value(fn) {
-						sites = append(sites, callSite{parent, u})
+						sites = append(sites, callSite{caller: parent, instr: u})
 					} else {
 						// argument: reuse the argument logic through a pseudo check
 						callees, ok := la.p.Callees(u)
@@ -1208,7 +1352,7 @@ func (la *lockAnalysis) closureSites(fn *ssa.Function) ([]callSite, string) {
 								return nil, "closure passed to external " + callee.String()
 							}
 						}
-						sites = append(sites, callSite{parent, u})
+						sites = append(sites, callSite{caller: parent, instr: u})
 					}
 				case *ssa.Go:
 					return nil, "closure runs in a new goroutine (" + la.p.Pos(u.Pos()) + ") holding nothing"
@@ -1466,43 +1610,48 @@ func ruleL4(p *Program, r *Reporter) {
 		r.Anchor(id, "server.(*OvsdbServer).Transact / txnMutex")
 		return
 	}
-	f := la.facts[fn]
+	fns := []*ssa.Function{fn}
+	if body, via := serverTransactBody(p); via != nil {
+		fns = append(fns, body)
+	}
 	targets := map[string]bool{"transact": false, "processMonitors": false, "Commit": false}
-	for _, b := range fn.Blocks {
-		for _, ins := range b.Instrs {
-			ci, ok := ins.(ssa.CallInstruction)
-			if !ok {
-				continue
+	for _, fn := range fns {
+		for _, b := range fn.Blocks {
+			for _, ins := range b.Instrs {
+				ci, ok := ins.(ssa.CallInstruction)
+				if !ok {
+					continue
+				}
+				cc := ci.Common()
+				if op, isLock, cls := lockOpOf(cc); isLock && cls && op.key.field == txn && !op.acquire {
+					_, isDefer := ins.(*ssa.Defer)
+					r.Ob(id, funcName(fn), "txnMutex release", ins.Pos(), isDefer, true, map[bool]string{true: "released only by defer (after every return value is computed)", false: "explicit Unlock inside Transact: the lock no longer spans execute+notify+commit"}[isDefer])
+					continue
+				}
+				name := ""
+				if cc.IsInvoke() {
+					name = cc.Method.Name()
+				} else if callee := cc.StaticCallee(); callee != nil {
+					name = callee.Name()
+				}
+				if _, want := targets[name]; !want {
+					continue
+				}
+				if name == "Commit" && !(cc.IsInvoke() && isNamed(cc.Value.Type(), repoMod+"/database", "Database")) {
+					continue
+				}
+				targets[name] = true
+				_, isCall := ins.(*ssa.Call)
+				held, _ := la.heldAt(fn, ins, txn, true, map[*ssa.Function]bool{}, 0)
+				ok2 := isCall && held
+				reason := "called synchronously with txnMutex held exclusively"
+				if !isCall {
+					reason = fmt.Sprintf("%s is started with %T: not part of the serialised section", name, ins)
+				} else if !held {
+					reason = "txnMutex is not held on every path to this call"
+				}
+				r.Ob(id, funcName(fn), name, ins.Pos(), ok2, true, reason)
 			}
-			cc := ci.Common()
-			if op, isLock, cls := lockOpOf(cc); isLock && cls && op.key.field == txn && !op.acquire {
-				_, isDefer := ins.(*ssa.Defer)
-				r.Ob(id, funcName(fn), "txnMutex release", ins.Pos(), isDefer, true, map[bool]string{true: "released only by defer (after every return value is computed)", false: "explicit Unlock inside Transact: the lock no longer spans execute+notify+commit"}[isDefer])
-				continue
-			}
-			name := ""
-			if cc.IsInvoke() {
-				name = cc.Method.Name()
-			} else if callee := cc.StaticCallee(); callee != nil {
-				name = callee.Name()
-			}
-			if _, want := targets[name]; !want {
-				continue
-			}
-			if name == "Commit" && !(cc.IsInvoke() && isNamed(cc.Value.Type(), repoMod+"/database", "Database")) {
-				continue
-			}
-			targets[name] = true
-			_, isCall := ins.(*ssa.Call)
-			held := f.before[ins].mustHeld(lockKey{txn, 'W'})
-			ok2 := isCall && held
-			reason := "called synchronously with txnMutex held exclusively"
-			if !isCall {
-				reason = fmt.Sprintf("%s is started with %T: not part of the serialised section", name, ins)
-			} else if !held {
-				reason = "txnMutex is not held on every path to this call"
-			}
-			r.Ob(id, funcName(fn), name, ins.Pos(), ok2, true, reason)
 		}
 	}
 	for _, n := range sortedKeys(targets) {
